@@ -1,39 +1,49 @@
 /-
 C02 — loading resolves every `$ref` to exactly the object it designates.
 Property theorems only. Model and specification: KinModel/Loader.lean (abstract algorithm, parametric in the
-one-step meaning of a reference text), KinModel/LoaderJson.lean (concrete step functions); helper lemmas:
-KinModel/Lemmas/C02.lean.
+one-step meaning of a reference text), KinModel/LoaderJson.lean (concrete step functions, position tables); helper
+lemmas: KinModel/Lemmas/C02.lean (soundness invariant), C02Term.lean (fuel bound, fuel independence),
+C02Complete.lean (completeness invariant), C02Step.lean (pointer unescaping, path cleaning).
+Sections: (2) soundness, (3) failing references, (1) termination, (4) completeness, (T) generated tables,
+(S) one-step functions, witnesses of the open findings, regressions of the repaired ones, non-vacuity.
 -/
 import KinModel.Lemmas.C02
+import KinModel.Lemmas.C02Term
+import KinModel.Lemmas.C02Complete
 import KinModel.LoaderJson
 import KinModel.Gen.ResolverSkeleton
+import KinModel.Gen.LoaderPositions
+import KinModel.Lemmas.C02Step
 namespace KinModel.Loader
 
 /-
 FULL STATEMENT (does not hold of the code, see the witnesses below):
   load w fuel root = .ok s → ∀ (o, v) ∈ s.value, ∃ f, designates w f o = some v
-What is proved: the same under
-  * `TextIsGlobal` (finding #29: the in-progress set and the backtrack table are keyed by the reference TEXT,
-    so the same relative text written in two directories is confused), and
-  * `s.foreign = false` — in this run no reference was evaluated in a context other than the one it is
-    written in (the second walk of a value's children happens with the REFERRING document's path; a
-    whole-file load switches the path but not the document). `foreign` is computed by the model itself, so the
-    hypothesis is decidable per input and is reported by the driver as the class `ForeignContext`.
+What is proved: the same for runs in which neither of two events happened. Both are flags computed by the model
+itself, so the hypothesis is decidable per input and the driver reports it as a class:
+  * `s.tclash = false` — no backtrack callback fired for a reference whose own one-step target (read where it is
+    written) differs from the target of the visit that fired it. Finding #29: the in-progress set and the backtrack
+    table are keyed by the reference TEXT, so the same relative text written in two directories is confused.
+    Class `TextNotGlobal`. (The static condition `TextIsGlobal w` — every text means the same from every home — is
+    sufficient but far from necessary; it is no longer a hypothesis.)
+  * `s.foreign = false` — no reference was evaluated in a context other than the one it is written in (the second
+    walk of a value's children happens with the REFERRING document's path; a whole-file load switches the path but
+    not the document). Class `ForeignContext`.
 -/
 
 /-- (2) After a successful resolution every reference that was given a value stands for exactly the object
 its text designates from the context it is written in (through chains and cycles, kind checked at every hop). -/
-theorem resolve_ok_resolves_partial (w : World) (hT : TextIsGlobal w) (hC : CopyOK w) (fuel : Nat) (cx : Loc) (o : Obj) (s : St)
-    (h : resolve w fuel cx o {} = .ok s) (hf : s.foreign = false) :
+theorem resolve_ok_resolves_partial (w : World) (hC : CopyOK w) (fuel : Nat) (cx : Loc) (o : Obj) (s : St)
+    (h : resolve w fuel cx o {} = .ok s) (hf : s.foreign = false) (ht : s.tclash = false) :
     ∀ r v, (r, v) ∈ s.value → ∃ f, designates w f r = some v :=
-  ((resolve_pres w hT hC fuel cx o {} s h hf).2 ⟨by intro i v h; simp at h, by intro t m h; simp at h⟩).1
+  ((resolve_pres w hC fuel cx o {} s h ⟨hf, ht⟩).2 ⟨by intro i v h; simp at h, by intro t m h; simp at h⟩).1
 
 /-- (2) for a whole document: `load` walks the root positions of the root document. -/
-theorem load_ok_resolves_partial (w : World) (hT : TextIsGlobal w) (hC : CopyOK w) (fuel : Nat) (root : Loc) (s : St)
-    (h : load w fuel root = .ok s) (hf : s.foreign = false) :
+theorem load_ok_resolves_partial (w : World) (hC : CopyOK w) (fuel : Nat) (root : Loc) (s : St)
+    (h : load w fuel root = .ok s) (hf : s.foreign = false) (ht : s.tclash = false) :
     ∀ r v, (r, v) ∈ s.value → ∃ f, designates w f r = some v := by
   unfold load at h
-  have := pres_foldRes w _ (fun k => resolve_pres w hT hC fuel root k) (w.roots root) _ s h hf
+  have := pres_foldRes w _ (fun k => resolve_pres w hC fuel root k) (w.roots root) _ s h ⟨hf, ht⟩
   exact (this.2 ⟨by intro i v h; simp at h, by intro t m h; simp at h⟩).1
 
 
@@ -69,7 +79,7 @@ theorem dangling_fails (w : World) (fuel : Nat) (cx : Loc) (o : Obj) (n : Node) 
     (resolve w (fuel + 1) cx o s).isOk = false := by
   simp only [resolve, hn, hr, hv, hp, loadDoc, hd, he, ht]
   simp only [Option.isSome_none, Bool.false_eq_true, if_false]
-  split <;> rfl
+  rfl
 
 /-- (3b) A reference whose target is of another kind makes the resolution fail. -/
 theorem wrong_kind_fails (w : World) (fuel : Nat) (cx cx' : Loc) (o tgt : Obj) (n tn : Node) (t : Text) (s : St)
@@ -81,21 +91,138 @@ theorem wrong_kind_fails (w : World) (fuel : Nat) (cx cx' : Loc) (o tgt : Obj) (
   simp only [Option.isSome_none, Bool.false_eq_true, if_false, ne_eq, hk, not_false_eq_true, if_true]
   rfl
 
+/-! ### (1) Loading always terminates
+
+`resolve` is fuel-indexed; fuel bounds the NESTING depth only. Every nested call either descends to a child of a
+value (`rank` drops) or happens inside a visit that has put a new reference text into `visitedRefs`. -/
+
+/-- With fuel `(#texts + 1) · (R + 1)` — `R` a bound on the nesting depth of values — loading never runs out of fuel,
+for every store, every reference graph (cycles, chains, cross-document) and every `target`/`docOf`/`rewalk`. -/
+theorem load_terminates (w : World) (rank : Obj → Nat) (R : Nat) (T : List Text) (hR : Ranked w rank R) (hT : TextsIn w T)
+    (fuel : Nat) (root : Loc) (h : (T.length + 1) * (R + 1) ≤ fuel) : load w fuel root ≠ .outOfFuel := by
+  unfold load
+  apply foldRes_noOOF _ (fun _ => True) (fun _ _ _ _ _ => trivial)
+  · intro k _ s _
+    apply resolve_noOOF w rank R T hR hT
+    unfold need
+    have h1 : missing T s.inprog ≤ T.length := by unfold missing; exact List.length_filter_le _ _
+    have h2 : min (rank k) R ≤ R := Nat.min_le_right _ _
+    have h3 : missing T s.inprog * (R + 1) ≤ T.length * (R + 1) := Nat.mul_le_mul_right _ h1
+    have h4 : (T.length + 1) * (R + 1) = T.length * (R + 1) + (R + 1) := by rw [Nat.add_mul, Nat.one_mul]
+    omega
+  · trivial
+
+/-- More fuel never changes a result: above the bound the outcome of `load` does not depend on the fuel. -/
+theorem load_fuel_independent (w : World) (fuel g : Nat) (root : Loc) (r : Res)
+    (h : load w fuel root = r) (hne : r ≠ .outOfFuel) (hg : fuel ≤ g) : load w g root = r := by
+  unfold load at h ⊢
+  exact foldRes_ext _ _ (fun k s r hr hne => resolve_fuel_mono w fuel root k s r hr hne g hg) _ _ r h hne
+
+/-! ### (4) Completeness: every reference of the loaded graph has a value
+
+FULL STATEMENT (does not hold of the code, witnesses `w34`, `w48` below):
+  load w fuel root = .ok s → every reference object reachable from the root positions has a value.
+What is proved: the same for runs in which `unvisitRef` was never called with a nil value (a pure `$ref` cycle, #34),
+no backtrack callback met a value of another kind (F-C02-48) and no `errMUST…` was swallowed (the fragment `#`,
+#34) — three counters of the model, reported by the driver as the classes DegenerateTarget / KindClashUnresolved. -/
+
+theorem load_ok_complete_partial (w : World) (fuel : Nat) (root : Loc) (s : St)
+    (h : load w fuel root = .ok s) (hc : Clean s) :
+    ∀ o n t, Reach w s root o → w.node o = some n → n.ref = some t → (getC w s o).isSome = true := by
+  unfold load at h
+  obtain ⟨_, hi, _, hp⟩ := presC_foldRes w _ (fun k => resolve_presC w fuel root k) (w.roots root) _ s h hc
+  have hs : Settled w s := hp ⟨by intro o v h; simp at h, by intro o h; simp at h, by intro o h; simp at h, by intro t o h; simp at h⟩
+  have hroots := (foldRes_done _ (fun k => resolve_marks w fuel root k) _ _ _ h).2
+  intro o n t hreach hn hr
+  have hd := reach_done w s root hs hroots o hreach
+  rcases hs.refs o hd n t hn hr with hh | hpend
+  · exact (getC_isSome_iff w s o).2 hh
+  · have := hs.pend t o hpend
+    rw [hi] at this
+    simp at this
+
+/-- (2)+(4) together: in a clean run without foreign evaluation and without a text clash, every reference of the loaded graph (the copies the
+resolvers make are not part of it) HAS a value and that value is the object its text designates. -/
+theorem load_ok_resolves_all_partial (w : World) (hC : CopyOK w) (fuel : Nat) (root : Loc) (s : St)
+    (h : load w fuel root = .ok s) (hf : s.foreign = false) (ht : s.tclash = false) (hc : Clean s) :
+    ∀ o n t, Reach w s root o → w.node o = some n → n.ref = some t → n.orig = none →
+      ∃ v f, s.get o = some v ∧ designates w f o = some v := by
+  intro o n t hreach hn hr ho
+  have h1 := load_ok_complete_partial w fuel root s h hc o n t hreach hn hr
+  have h2 : getC w s o = s.get o := by
+    unfold getC
+    cases hg : s.get o with
+    | some v => rfl
+    | none => simp [hn, ho]
+  rw [h2] at h1
+  cases hg : s.get o with
+  | none => simp [hg] at h1
+  | some v =>
+    obtain ⟨f, hf'⟩ := load_ok_resolves_partial w hC fuel root s h hf ht o v (get_mem s o v hg)
+    exact ⟨v, f, rfl, hf'⟩
+
+/-- (3) at the level of a whole load: when the document loads (clean run, no foreign evaluation, no text clash) there is no reference
+in the loaded graph whose target does not exist, is of the wrong kind, or closes a pure reference cycle — such a
+reference makes loading fail. -/
+theorem load_ok_no_dangling_partial (w : World) (hC : CopyOK w) (fuel : Nat) (root : Loc) (s : St)
+    (h : load w fuel root = .ok s) (hf : s.foreign = false) (ht : s.tclash = false) (hc : Clean s) :
+    ¬ ∃ o n t, Reach w s root o ∧ w.node o = some n ∧ n.ref = some t ∧ n.orig = none ∧ ∀ f, designates w f o = none := by
+  rintro ⟨o, n, t, hreach, hn, hr, ho, hnone⟩
+  obtain ⟨v, f, _, hd⟩ := load_ok_resolves_all_partial w hC fuel root s h hf ht hc o n t hreach hn hr ho
+  rw [hnone f] at hd
+  cases hd
+
 /-! ### (T) the ten resolvers have the skeleton and the child calls the model assumes
 
 `Gen.resolverSkeleton` is regenerated from openapi3/loader.go on every run. -/
 
 theorem skeleton_table_recognised : ∀ r ∈ KinModel.Gen.resolverSkeleton, r.isRow = true := by decide
 
-/-- every routine has the steps of `resolve` (value check, shouldVisitRef, visitRef, single-element branch,
-    resolveComponent, deferred unvisitRef); only path items lack the recursive call on the copy; exactly
-    security schemes, examples and links do not move `documentPath` on a whole-file load; and each routine calls
-    the resolvers of `walkCalls` on child positions, in that order -/
+/-- the table has exactly the ten routines, the two walk helpers and `ResolveRefsIn`; every routine has, statement
+    by statement, the `$ref` block that `resolve` models (`LoaderJson.skeletonSteps`: value check, callback with an
+    ok-checked assertion, visitRef, whole-file branch that moves `documentPath`, fragment branch with the local copy
+    and the recursive call — for path items in the switched context and only for a reference copy —, deferred
+    unvisitRef last), and calls the resolvers / helpers of `walkCalls` on child positions, in that order, each
+    with `(doc, _, documentPath)` -/
 theorem skeleton_matches_model :
     KinModel.Gen.resolverSkeleton =
-      KinModel.LoaderJson.kindsByGoName.map (fun k =>
-        KinModel.Gen.ResolverRow.row (KinModel.LoaderJson.goName k) (KinModel.LoaderJson.skeletonFlags k)
-          ((KinModel.LoaderJson.walkCalls k).map KinModel.LoaderJson.goName)) := by decide
+      KinModel.LoaderJson.expectedSkeleton.map (fun r => KinModel.Gen.ResolverRow.row r.1 r.2.1 r.2.2) := by decide
+
+/-! ### (T) the child positions: walked (from the routines) and reference-capable (from the types)
+
+`Gen.loaderWalked` / `Gen.loaderRefPositions` are regenerated from openapi3/*.go on every run. -/
+
+theorem positions_table_recognised : ∀ r ∈ KinModel.Gen.loaderWalked, r.isRow = true := by decide
+
+/-- the position trees from which the model's `children` / `docChildren` are computed are, loop by loop and call by
+    call, what the routines, the two helpers and `ResolveRefsIn` do after the `$ref` block -/
+theorem walked_positions_match_model :
+    KinModel.Gen.loaderWalked = KinModel.LoaderJson.expectedWalked.map (fun r => KinModel.Gen.WalkRow.row r.1 r.2) := by decide
+
+/-- the positions at which the specification looks for references are exactly the fields of the type declarations
+    that can hold a reference-capable object -/
+theorem ref_positions_match_types :
+    KinModel.Gen.loaderRefPositions = KinModel.LoaderJson.expectedRefPositions := by decide
+
+/-- (#13 as a theorem) every position that can hold a reference-capable object by its type is handed to the resolver
+    of that kind by the routine of the enclosing kind (through the helpers), for all ten kinds and the document -/
+theorem walk_covers :
+    (∀ k ∈ KinModel.LoaderJson.kindsByGoName, ∀ p ∈ KinModel.LoaderJson.refPositions k,
+      ("/".intercalate p.1, KinModel.LoaderJson.goName p.2) ∈ KinModel.LoaderJson.walkedPaths (KinModel.LoaderJson.positions k)) ∧
+    (∀ p ∈ KinModel.LoaderJson.docRefPositions,
+      ("/".intercalate p.1, KinModel.LoaderJson.goName p.2) ∈ KinModel.LoaderJson.walkedPaths KinModel.LoaderJson.documentPos) := by
+  decide
+
+/-! ### (S) one-step functions: where loader and RFC can be compared on shared data -/
+
+/-- `unescapeRefString` decodes every pointer token exactly as RFC 6901 §4 prescribes, for all strings -/
+theorem pointer_unescape_agrees (s : List Char) : KinModel.LoaderJson.unescGo s = KinModel.LoaderJson.unescRfc s :=
+  KinModel.LoaderJson.unescGo_eq_unescRfc s
+
+/-- on rooted paths without empty segments `path.Clean` and RFC 3986 remove_dot_segments agree, whatever `.`/`..` occur -/
+theorem path_clean_agrees (segs : List String) (h : ∀ x ∈ segs, x ≠ "") :
+    KinModel.LoaderJson.cleanStack true segs [] = KinModel.LoaderJson.rfcStack segs [] :=
+  KinModel.LoaderJson.cleanStack_eq_rfcStack segs [] h (by simp)
 
 /-! ### Witnesses: the full statement fails of the code, inside each exclusion -/
 
@@ -103,8 +230,8 @@ theorem skeleton_matches_model :
     text 8 = "../b/b.json#/T". Objects: 0 root X = {$ref 7}; 1 a/x.json S (child 2 = {$ref 8}); 3 b/b.json T
     (child 4 = {$ref 7}); 5 b/x.json S. -/
 def w29 : World where
-  nodes := [⟨.schema, some 7, [], [], 0, none⟩, ⟨.schema, none, [2], [], 1, none⟩, ⟨.schema, some 8, [], [], 1, none⟩,
-            ⟨.schema, none, [4], [], 2, none⟩, ⟨.schema, some 7, [], [], 2, none⟩, ⟨.schema, none, [], [], 3, none⟩]
+  nodes := [⟨.schema, some 7, [], 0, none⟩, ⟨.schema, none, [2], 1, none⟩, ⟨.schema, some 8, [], 1, none⟩,
+            ⟨.schema, none, [4], 2, none⟩, ⟨.schema, some 7, [], 2, none⟩, ⟨.schema, none, [], 3, none⟩]
   roots := fun | 0 => [0] | 1 => [1] | 2 => [3] | 3 => [5] | _ => []
   docOf := fun c t => match t with
     | 7 => if c ≤ 1 then some 1 else some 3
@@ -113,56 +240,53 @@ def w29 : World where
     | 7 => if c ≤ 1 then some (1, 1) else some (3, 5)
     | _ => some (2, 3)
 
-/-- the loader's algorithm gives `q` (object 4, written in /r/b) the value a/x.json#/S (object 1) … -/
-theorem w29_model : (match load w29 20 0 with | .ok s => (s.get 4, s.foreign) | _ => (none, true)) = (some 1, false) := by decide
+/-- the loader's algorithm gives `q` (object 4, written in /r/b) the value a/x.json#/S (object 1) through a callback
+    of the visit of object 0 (`tclash`), with no foreign evaluation … -/
+theorem w29_model : (match load w29 20 0 with | .ok s => (s.get 4, s.foreign, s.tclash) | _ => (none, true, false)) = (some 1, false, true) := by decide
 /-- … while it designates b/x.json#/S (object 5): model ≠ spec with no foreign evaluation, as on the real code -/
 theorem w29_spec : designates w29 5 4 = some 5 := by decide
 theorem w29_text_not_global : ¬ TextIsGlobal w29 := by
   intro h
-  have := h 0 4 ⟨.schema, some 7, [], [], 0, none⟩ ⟨.schema, some 7, [], [], 2, none⟩ 7 rfl rfl rfl rfl rfl
+  have := h 0 4 ⟨.schema, some 7, [], 0, none⟩ ⟨.schema, some 7, [], 2, none⟩ 7 rfl rfl rfl rfl rfl
   simp [w29] at this
 
-/-- #12. Objects: 0 response A = {$ref 0}; 1 response B (child 2); 2 header h = {$ref 0} (the same text). -/
-def w12 : World where
-  nodes := [⟨.response, some 0, [], [], 0, none⟩, ⟨.response, none, [2], [], 0, none⟩, ⟨.header, some 0, [], [], 0, none⟩]
-  roots := fun _ => [0, 1]
-  docOf := fun _ _ => none
-  target := fun _ _ _ => some (0, 1)
+/-- F-C02-48 (what a04fe6c left of #12). Contexts 0 = /r/a/root.json, 1 = /r/a/x.json; text 0 =
+    "x.json#/components/responses/B". Objects: 0 root response A = {$ref 0}; 1 x.json response B (child 2);
+    2 header h = {$ref 0} — the same text, met while it is in progress as a response reference. Its callback finds a
+    value of another kind and returns; x.json is never walked again. -/
+def w48 : World where
+  nodes := [⟨.response, some 0, [], 0, none⟩, ⟨.response, none, [2], 1, none⟩, ⟨.header, some 0, [], 1, none⟩]
+  roots := fun | 0 => [0] | 1 => [1] | _ => []
+  docOf := fun _ _ => some 1
+  target := fun _ _ _ => some (1, 1)
 
-/-- the header reference is of the wrong kind (it designates nothing) but loading panics instead of failing -/
-theorem w12_model_panics : (match load w12 20 0 with | .panic _ => true | _ => false) = true := by decide
-theorem w12_spec : designates w12 5 2 = none := by decide
-theorem w12_kind_clash : ¬ NoKindClash w12 := by
+/-- the header reference is of the wrong kind (it designates nothing), yet the document loads and the reference
+    stays without value -/
+theorem w48_model_loads_unresolved :
+    (match load w48 20 0 with | .ok s => (s.get 0, s.get 2, s.nskip != 0, s.foreign) | _ => (none, some 0, false, true))
+      = (some 1, none, true, false) := by decide
+theorem w48_spec : designates w48 5 2 = none := by decide
+theorem w48_kind_clash : ¬ NoKindClash w48 := by
   intro h
-  have := h 0 2 ⟨.response, some 0, [], [], 0, none⟩ ⟨.header, some 0, [], [], 0, none⟩ 0 rfl rfl rfl rfl
+  have := h 0 2 ⟨.response, some 0, [], 0, none⟩ ⟨.header, some 0, [], 1, none⟩ 0 rfl rfl rfl rfl
   simp at this
-
-/-- #13. Object 0: a response value whose child 1 (a header under content.encoding) is never visited. -/
-def w13 : World where
-  nodes := [⟨.response, none, [], [1], 0, none⟩, ⟨.header, some 0, [], [], 0, none⟩, ⟨.header, none, [], [], 0, none⟩]
-  roots := fun _ => [0, 2]
-  docOf := fun _ _ => none
-  target := fun _ _ _ => some (0, 2)
-
-theorem w13_model_unresolved : (match load w13 20 0 with | .ok s => s.get 1 | _ => some 0) = none := by decide
-theorem w13_spec : designates w13 5 1 = some 2 := by decide
 
 /-- #34. Object 0 = {$ref 0} pointing at itself (object 1 is the resolver's local copy): loads, stays unresolved. -/
 def w34 : World where
-  nodes := [⟨.schema, some 0, [], [], 0, none⟩, ⟨.schema, some 0, [], [], 0, some 0⟩]
+  nodes := [⟨.schema, some 0, [], 0, none⟩, ⟨.schema, some 0, [], 0, some 0⟩]
   roots := fun _ => [0]
   docOf := fun _ _ => none
   target := fun _ _ _ => some (0, 1)
 
-theorem w34_model_loads_unresolved : (match load w34 20 0 with | .ok s => (s.get 0).isNone | _ => false) = true := by decide
+theorem w34_model_loads_unresolved : (match load w34 20 0 with | .ok s => (s.get 0).isNone && s.nnil != 0 | _ => false) = true := by decide
 theorem w34_spec : ∀ f, f ≤ 8 → designates w34 f 0 = none := by decide
 
 /-- #47 (second walk in the referring context). Contexts 0 = /r/b/y.json (root), 1 = /r/x.json. Objects: 0 root A =
     {$ref 0} ("../x.json#/S"); 1 x.json S (child 2); 2 = {$ref 1} ("../r/b/y.json#/A", fine from /r, a missing
     file from /r/b); 3 the resolver's copy of object 0. -/
 def w47 : World where
-  nodes := [⟨.schema, some 0, [], [], 0, none⟩, ⟨.schema, none, [2], [], 1, none⟩, ⟨.schema, some 1, [], [], 1, none⟩,
-            ⟨.schema, some 0, [], [], 0, some 0⟩]
+  nodes := [⟨.schema, some 0, [], 0, none⟩, ⟨.schema, none, [2], 1, none⟩, ⟨.schema, some 1, [], 1, none⟩,
+            ⟨.schema, some 0, [], 0, some 0⟩]
   roots := fun | 0 => [0] | 1 => [1] | _ => []
   docOf := fun c t => match t with
     | 0 => some 1
@@ -172,7 +296,7 @@ def w47 : World where
     | _ => if c = 1 then some (0, 3) else none
 
 /-- every reference designates an object, yet loading fails — after evaluating a reference in a foreign context -/
-theorem w47_model_fails : (match load w47 20 0 with | .err fg => fg | _ => false) = true := by decide
+theorem w47_model_fails : (match load w47 20 0 with | .err fl => fl.foreign && !fl.tclash | _ => false) = true := by decide
 theorem w47_spec : designates w47 5 0 = some 1 ∧ designates w47 5 2 = some 1 := by decide
 theorem w47_text_global : TextIsGlobal w47 := by
   have key : ∀ o n, w47.node o = some n → ∀ t, n.ref = some t → n.home = (if t = 0 then 0 else 1) ∧ n.kind = .schema := by
@@ -183,13 +307,52 @@ theorem w47_text_global : TextIsGlobal w47 := by
   obtain ⟨h3, h4⟩ := key b nb hb t hrb
   rw [h1, h2, h3, h4]
 
+/-! ### Regressions: former witnesses of repaired defects — model and specification now agree on them
+(their inputs stay in corpus/C02 and are replayed against the real loader on every run) -/
+
+/-- #12 / F-C02-12 (fixed a04fe6c). Objects: 0 response A = {$ref 0}; 1 response B (child 2); 2 header h = {$ref 0}
+    (the same text). The callback of the header no longer panics; B is a root position, so h is met again outside
+    the visit of A and the wrong kind is reported. -/
+def w12 : World where
+  nodes := [⟨.response, some 0, [], 0, none⟩, ⟨.response, none, [2], 0, none⟩, ⟨.header, some 0, [], 0, none⟩]
+  roots := fun _ => [0, 1]
+  docOf := fun _ _ => none
+  target := fun _ _ _ => some (0, 1)
+
+theorem w12_regression_load_fails : (match load w12 20 0 with | .err _ => true | _ => false) = true := by decide
+theorem w12_spec : designates w12 5 2 = none := by decide
+
+/-- #13 / F-C02-13 (fixed cbb0d05). Object 0: a response value whose child 1 (a header under content.encoding,
+    formerly never visited) refers to the header 2. -/
+def w13 : World where
+  nodes := [⟨.response, none, [1], 0, none⟩, ⟨.header, some 0, [], 0, none⟩, ⟨.header, none, [], 0, none⟩]
+  roots := fun _ => [0, 2]
+  docOf := fun _ _ => none
+  target := fun _ _ _ => some (0, 2)
+
+theorem w13_regression_resolved :
+    (match load w13 20 0 with | .ok s => s.get 1 | _ => none) = designates w13 5 1 ∧ designates w13 5 1 = some 2 := by decide
+
+/-- F-C02-46 (fixed 9b25d89). Contexts 0 = root, 1 = /r/b/x.json. Objects: 0 path item /a = {$ref 0} ("#/paths/~1b");
+    1 path item /b = {$ref 1} ("../b/x.json#/paths/~1c"); 2 x.json /c (a value); 3 the resolver's copy of /b. -/
+def w46 : World where
+  nodes := [⟨.pathItem, some 0, [], 0, none⟩, ⟨.pathItem, some 1, [], 0, none⟩, ⟨.pathItem, none, [], 1, none⟩,
+            ⟨.pathItem, some 1, [], 0, some 1⟩]
+  roots := fun | 0 => [0, 1] | 1 => [2] | _ => []
+  docOf := fun _ t => if t = 1 then some 1 else none
+  target := fun _ t _ => if t = 0 then some (0, 3) else some (1, 2)
+
+theorem w46_regression_chain_resolved :
+    (match load w46 20 0 with | .ok s => (s.get 0, s.get 1, s.foreign) | _ => (none, none, true)) = (designates w46 5 0, designates w46 5 1, false)
+    ∧ designates w46 5 0 = some 2 := by decide
+
 /-! ### Non-vacuity: a non-trivial world satisfies the hypotheses of the partial theorem and loads -/
 
 /-- A mutual cycle across two documents: 0 root R = {$ref 0} → 1 (A, children 2); 2 = {$ref 1} → 3 (B, child 4);
     4 = {$ref 0} back to A. Every text is written in one place. -/
 def wCycle : World where
-  nodes := [⟨.schema, some 0, [], [], 0, none⟩, ⟨.schema, none, [2], [], 1, none⟩, ⟨.schema, some 1, [], [], 1, none⟩,
-            ⟨.schema, none, [4], [], 1, none⟩, ⟨.schema, some 0, [], [], 1, none⟩]
+  nodes := [⟨.schema, some 0, [], 0, none⟩, ⟨.schema, none, [2], 1, none⟩, ⟨.schema, some 1, [], 1, none⟩,
+            ⟨.schema, none, [4], 1, none⟩, ⟨.schema, some 0, [], 1, none⟩]
   roots := fun | 0 => [0] | 1 => [1, 3] | _ => []
   docOf := fun c t => if t = 0 ∧ c = 0 then some 1 else none
   target := fun _ t _ => match t with
@@ -197,7 +360,23 @@ def wCycle : World where
     | _ => some (1, 3)
 
 example : (match load wCycle 20 0 with
-    | .ok s => (!s.foreign) && s.get 0 == some 1 && s.get 2 == some 3 && s.get 4 == some 1
+    | .ok s => (!s.foreign) && (!s.tclash) && s.get 0 == some 1 && s.get 2 == some 3 && s.get 4 == some 1
     | _ => false) = true := by decide
+
+/-- … and it satisfies the remaining hypothesis of the partial theorems (`s.foreign = false`, `s.tclash = false` and
+    `Clean s`: the two examples around) -/
+example : CopyOK wCycle := by
+  intro c n r hn ho
+  rcases c with _ | _ | _ | _ | _ | c <;> simp [World.node, wCycle] at hn <;> subst hn <;> simp at ho
+
+/-- the hypotheses of `load_terminates` hold of it (rank 1 for the two values with a child), the bound is 6 -/
+example : Ranked wCycle (fun o => if o = 1 ∨ o = 3 then 1 else 0) 1 ∧ TextsIn wCycle [0, 1] ∧
+    (match load wCycle 6 0 with | .ok s => s.nnil + s.nskip + s.nempty == 0 | _ => false) = true := by
+  refine ⟨⟨?_, ?_⟩, ?_, by decide⟩
+  · intro o n _; show (if o = 1 ∨ o = 3 then 1 else 0) ≤ 1; split <;> omega
+  · intro o n k hn hr hk
+    rcases o with _ | _ | _ | _ | _ | o <;> simp [World.node, wCycle] at hn <;> subst hn <;> simp at hr hk ⊢ <;> subst hk <;> simp
+  · intro o n t hn hr
+    rcases o with _ | _ | _ | _ | _ | o <;> simp [World.node, wCycle] at hn <;> subst hn <;> simp at hr ⊢ <;> subst hr <;> simp
 
 end KinModel.Loader
